@@ -3,11 +3,13 @@ PROP = {
     "harness": "c01",
     "level": "proof",
     "stateful": True,
-    "level_text": "Proof on a hand-written model of the cell value codec AS FIXED (fix_1..fix_4): for every cell of every kind (blank, text, rich text with >=1 run, "
-                  "number token, boolean, error), with or without a formula, styled or not, anywhere in the grid, and for EVERY text over Unicode scalar values "
+    "level_text": "Proof on a hand-written model of the cell value codec AS FIXED (fix_1..fix_6): for every cell of every kind (blank, text, rich text with >=1 run, "
+                  "number token, boolean, error, a value stored with set_value_lazy and never resolved), with or without a formula (also over a rich text: fix 5), styled or not, "
+                  "anywhere in the grid, and for EVERY text over Unicode scalar values "
                   "(XML specials, CR/LF/TAB, C0 controls, U+FFFE, non-BMP; value text, run text and formula text alike): what Cell::write_to emits is turned back into the "
-                  "same cell by Cell::set_attributes (C01_cell_roundtrip); at package level, for any number of sheets and for both writers, the reloaded workbook is the "
-                  "stored one without its blank unstyled cells, in order (C01_roundtrip, C01_normalize, C01_light_same); from the cell store to the reloaded cells via "
+                  "same cell by Cell::set_attributes, an unresolved lazy value as the typed value guess_typed_data makes of its text (fix 6; Cell.resolved, C01_resolved) "
+                  "(C01_cell_roundtrip); at package level, for any number of sheets and for both writers, the reloaded workbook is the "
+                  "stored one without its blank unstyled cells, lazy values resolved, in order (C01_roundtrip, C01_normalize, C01_light_same); from the cell store to the reloaded cells via "
                   "C10's row-loop theorem (C01_sheet_roundtrip); quick-xml escaping laws (C01_unescape_escape, C01_unescape_partial_escape, C01_text_nodes). "
                   "The model is tied to the code on every run by a differential check of (a) the setters, (b) the facts read back from the saved package with a non-unescaping "
                   "scanner (r, t, s, raw <f>/<v>, the <si> list) against the model writer, (c) the real reader against the model reader on those same facts and on hand-made "
@@ -17,12 +19,14 @@ PROP = {
                   "content hash of shared-string items assumed injective; run properties of rich text are an opaque token assumed to survive (C05).",
     "expect_theorems": ["C01_datatype_matches_source", "C01_bytes_text_identity", "C01_bytes_text_identity_conversion", "C01_bytes_attr_identity", "C01_channels_match_source", "C01_unescape_escape", "C01_unescape_partial_escape", "C01_text_nodes", "C01_cell_roundtrip", "C01_index_resolves",
                         "C01_roundtrip", "C01_light_same", "C01_normalize", "C01_sheet_roundtrip",
-                        "C01_trimmed_read_fails", "C01_lazy_fails", "C01_rich_under_formula_fails", "C01_rich_no_runs_fails"],
+                        "C01_resolved", "C01_trimmed_read_fails", "C01_lazy_repaired", "C01_rich_under_formula_repaired", "C01_rich_no_runs_fails"],
     "rule": "workbooks (quick 300 / thorough 5000) of 1-4 sheets and 0-400 cells built through the public API (set_value, set_value_string, set_value_number, set_value_bool, "
             "set_rich_text, set_error, set_formula + cached result of every kind via setters or set_formula_result_default, set_blank, set_value_lazy, a bold style), positions biased to "
             "A1 / XFD1048576 / column-letter and row-digit boundaries, texts from the alphabet of DESIGN 2.5 plus leading/trailing/only blanks; each saved with BOTH writers into memory and "
             "reloaded with read_reader(.., true); then hand-made packages (quick 3000 / thorough 40000) for the reader alone; then batches of 500 doubles (quick 10^4 / thorough 10^6) "
-            "through a one-column sheet compared bit for bit. The first workbook replays the witnesses of the four repaired defects and of the three known findings. "
+            "through a one-column sheet compared bit for bit. The first workbook replays the witnesses of the six repaired defects (fix 5: rich text under a formula; fix 6: lazy 'abc', '123', "
+            "'TRUE', '1e5', '' with and without a formula / a style) and of the known finding (rich text without runs, with and without a formula). A stored lazy value is compared with "
+            "what the public resolver get_value_lazy makes of it (formula kept). "
             "non-trivial = the request returned (not a panic / bad-op); distinct = distinct request line",
     "trusted_base": TB_COMMON + [
         "quick-xml 0.37.5 escape / partial_escape / unescape / trim_text modelled from its source on characters; tag syntax and event splitting as lexed facts (the harness scanner and the synthesiser of hand-made parts are trusted code)",
@@ -33,7 +37,7 @@ PROP = {
     ],
     "assumptions": ["NumFmt.Sound: parse (fmt n) = some n; fmt n is non-empty over -0123456789.eE+infNa",
                     "cells lie in 1..16384 x 1..1048576; the number of distinct shared strings is below 2^64",
-                    "the value is not an unresolved lazy value, not a rich text with zero runs, not a rich text under a formula (the three known findings)",
+                    "the value is not a rich text with zero runs (the known finding C01-rich-text-no-runs)",
                     "rich-text run properties are an opaque token that the <rPr> codec preserves (C05)"],
     "partial_clauses": ["'reload to the identical floating-point value' rests on the trusted f64 Display/FromStr round trip (numbers are opaque tokens in the proof); explored by the harness bit for bit",
                         "the zip container and part naming are outside this model (C02); both writers are covered because the cell codec does not see the compression method (C01_light_same is rfl on the model; tied by running both)",
